@@ -11,6 +11,7 @@ edits which only change the *orientation* of a construct cannot change a verdict
   N4  `n = n + 1` / `n = n - 1` (plain name, numeric literal) -> `n += 1` / `n -= 1`
   N5  statement-level logging / print / warnings.warn calls are dropped (trusted: they do not change state)
   N6  `x: T = v` -> `x = v`; a bare declaration `x: T` is dropped
+  N7  a loop body ending in `if C: B` (no else) is written as the guard clause `if not C: continue` followed by B
 
 Line numbers are kept (reports still point at the source line); printed constructs show the normal form.
 `==` / `!=` between two non-constant operands keep their source order: `sa/pattern.py` matches them commutatively."""
@@ -77,6 +78,21 @@ def _is_log_call(e) -> bool:
     return False
 
 
+def _guard_form(body):
+    """N7: a loop body that ENDS with `if C: B` (no else) is written with a guard clause: `if not C: continue` followed by B
+    (applied repeatedly, so nested trailing ifs become a sequence of guard clauses)"""
+    out = list(body)
+    while out and isinstance(out[-1], ast.If) and not out[-1].orelse and out[-1].body \
+            and not (len(out[-1].body) == 1 and isinstance(out[-1].body[0], (ast.Continue, ast.Break, ast.Return, ast.Raise, ast.Pass))):
+        last = out.pop()
+        neg, was_neg = _strip_not(ast.copy_location(ast.UnaryOp(op=ast.Not(), operand=last.test), last.test))
+        test = neg if not was_neg else ast.copy_location(ast.UnaryOp(op=ast.Not(), operand=neg), last.test)
+        guard = ast.copy_location(ast.If(test=test, body=[ast.copy_location(ast.Continue(), last)], orelse=[]), last)
+        out.append(guard)
+        out.extend(last.body)
+    return out
+
+
 class Normalise(ast.NodeTransformer):
     def generic_visit(self, node):
         node = super().generic_visit(node)
@@ -113,7 +129,14 @@ class Normalise(ast.NodeTransformer):
     def visit_While(self, n):
         self.generic_visit(n)
         n.test = _test(n.test)
+        n.body = _guard_form(n.body)
         return n
+
+    def visit_For(self, n):
+        self.generic_visit(n)
+        n.body = _guard_form(n.body)
+        return n
+    visit_AsyncFor = visit_For
 
     def visit_IfExp(self, n):
         self.generic_visit(n)
